@@ -515,15 +515,36 @@ fn emit_case(cx: &mut Ctx, font: &[u8], st_before: &St, fail_at: Option<usize>, 
 
 // ---------------------------------------------------------------- oracle pieces (implementation only)
 fn fail(cx: &mut Ctx, what: &str, label: &str, term: &str, extra: serde_json::Value) {
-    // known defect of /repo (see notes/C18.md F-C18-1): stable key independent of the concrete input
-    let key = if label == "gvar.malformed.5" && what == "valid-patches-rejected" && extra["err"] == "(3, 0)" {
+    // keys are CLASS keys (seed / tier independent); the concrete input goes into `instance` and `case`
+    let key = if what == "F-C18-1" {
+        // known defect of /repo (see notes/C18.md F-C18-1)
         "F-C18-1-gvar-without-variation-data-rejected".to_string()
     } else if label == "threshold.gvar" && what == "valid-patches-rejected" && extra["err"] == "(3, 4)" {
         "F-C18-2-gvar-widening-out-of-room".to_string()
     } else {
-        format!("{}:{}:{:016x}", label, what, fnv(term.as_bytes()))
+        format!("{}:{}", label, what)
     };
-    cx.st.oracle_failure(json!({"key": key, "what": what, "label": label, "extra": extra, "case": &term[..term.len().min(1500)]}));
+    cx.st.oracle_failure(json!({"key": key, "what": what, "label": label, "extra": extra,
+        "instance": format!("{:016x}", fnv(term.as_bytes())), "case": &term[..term.len().min(1500)]}));
+}
+/// F-C18-1: the patched gvar would contain no glyph variation data at all
+fn gvar_result_empty(b: &BTreeMap<Tag, Vec<u8>>, applied: &[(Entry, GkContent)]) -> bool {
+    if !applied.iter().any(|(_, c)| c.tables.contains(&GVAR)) {
+        return false;
+    }
+    let Some(a) = offset_array(b, GVAR) else { return false };
+    let ng = a.offs.len().saturating_sub(1);
+    (0..ng).all(|g| {
+        let first = applied.iter().find_map(|(_, c)| {
+            let ti = c.tables.iter().position(|t| *t == GVAR)?;
+            let gi = c.gids.iter().position(|x| *x as usize == g)?;
+            Some(c.data[ti][gi].len())
+        });
+        match first {
+            Some(l) => l == 0,
+            None => a.slice(g).map(|s| s.is_empty()).unwrap_or(false),
+        }
+    })
 }
 fn loca_offsets(tabs: &BTreeMap<Tag, Vec<u8>>) -> Option<Vec<u32>> {
     let long = *tabs.get(&HEAD)?.get(51)? == 1;
@@ -572,7 +593,11 @@ fn oracle_glyph_keyed(cx: &mut Ctx, base: &[u8], out: &CallOut, applied: &[(Entr
     match &out.res {
         Err(e) => {
             if expect_ok == Some(true) {
-                fail(cx, "valid-patches-rejected", label, term, json!({"err": format!("{:?}", e)}));
+                if *e == (3, 0) && gvar_result_empty(&b, applied) {
+                    fail(cx, "F-C18-1", label, term, json!({"err": format!("{:?}", e)}));
+                } else {
+                    fail(cx, "valid-patches-rejected", label, term, json!({"err": format!("{:?}", e)}));
+                }
             }
         }
         Ok(f) => {
